@@ -152,6 +152,18 @@ func (o *out) skeletonCanon(f *goast.File, recv, name, coqName string, opt goast
 	return nil
 }
 
+// skeletonCalls: calls, locks and conditions only (no assignment events), local names canonicalised: for the long
+// streaming handlers, where only the position of the validation inside the receive loop matters
+func (o *out) skeletonCalls(f *goast.File, recv, name, coqName string, opt goast.SkelOpt) error {
+	fd, err := f.Func(recv, name)
+	if err != nil {
+		return err
+	}
+	opt.Assigns = nil
+	fmt.Fprintf(&o.sb, "Definition %s : list ev := (* %s: (%s).%s, calls and conditions, local names canonicalised *)\n  %s.\n", coqName, f.Path, recv, name, canonLocals(fd, f.Skeleton(fd, opt)))
+	return nil
+}
+
 func genC15(repo string) (string, error) {
 	var o out
 	st, err := goast.Load(repo, "server/core/storage.go")
